@@ -86,6 +86,9 @@ pub struct Case {
     /// additionally evaluate the phrase with X (bit 0) and/or p (bit 1) held in a variable bound on an earlier line
     #[serde(default)]
     pub via: u8,
+    /// order in which the two separators are set on the calculator (odd: thousands first)
+    #[serde(default)]
+    pub order: u8,
 }
 
 fn div0(a: f64, b: f64) -> f64 {
@@ -178,7 +181,8 @@ impl Prop for PctProp {
     }
     fn check(&self, w: &mut Worker, c: &Case) -> Verdict {
         let (dec, thou) = READ_SEPS[c.seps % 4];
-        let cfg = Cfg::seps(dec, thou);
+        let mut cfg = Cfg::seps(dec, thou);
+        cfg.order = c.order % 2;
         let line = case_line(c).render(dec, thou);
         let rendered = format!("[{}] {}", cfg.label(), line);
         let slot = match w.eval1(&cfg, "en", &line) {
@@ -285,6 +289,69 @@ impl Prop for PctProp {
     }
 }
 
+// ---- several phrases on one line -----------------------------------------------------------------
+
+/// `phrase + phrase + ...` (2-12 number-valued phrases of the of / on / off / of-what kind): the value of the line
+/// is the sum of the values of its phrases - every occurrence of a phrase is computed, not only the first few
+#[derive(Clone, Debug, Serialize, Deserialize)]
+pub struct SumCase {
+    pub terms: Vec<Case>,
+}
+
+pub struct PhraseSums;
+
+impl Prop for PhraseSums {
+    type Case = SumCase;
+    fn name(&self) -> &'static str {
+        "phrase-sums"
+    }
+    fn check(&self, w: &mut Worker, c: &SumCase) -> Verdict {
+        let cfg = Cfg::default();
+        let line = c.terms.iter().map(|t| case_line(t).render(",", ".")).collect::<Vec<_>>().join(" + ");
+        let rendered = line.clone();
+        let mut exp = 0.0;
+        let mut scale: f64 = 1.0;
+        for t in &c.terms {
+            match expected(t) {
+                Expect::Num(v) => {
+                    exp += v;
+                    scale = scale.max(v.abs());
+                }
+                _ => return Verdict::skip("a term is not number-valued", rendered),
+            }
+        }
+        let slot = match w.eval1(&cfg, "en", &line) {
+            Ok(s) => s,
+            Err(e) => return Verdict::fail(e, rendered),
+        };
+        let mut acc = Acc::new();
+        match &slot {
+            Slot::Ok { v: V::Num(g, NT::Decimal), .. } if close_scaled(*g, exp, scale) => {}
+            other => acc.fail(format!("the {} phrases sum to {} but the line gives {}", c.terms.len(), exp, other.brief())),
+        }
+        let same_kind = c.terms.windows(2).all(|p| p[0].phrase == p[1].phrase);
+        acc.finish(rendered).nt(c.terms.len() >= 2).class("several-phrases-on-one-line").class_if(c.terms.len() >= 9, "nine-or-more-phrases").class_if(same_kind, "all-phrases-of-one-kind")
+    }
+}
+
+fn sum_small() -> impl Strategy<Value = NumLit> {
+    (1u32..=2000, 0u8..3).prop_map(|(v, d)| NumLit::new(v as f64 / 10f64.powi(d as i32)))
+}
+
+fn sum_term(ph: BoxedStrategy<Phrase>) -> impl Strategy<Value = Case> {
+    (ph, sum_small(), sum_small(), any::<bool>()).prop_map(|(phrase, x, p, prefix)| Case { phrase, x: Amount::Plain(x), b: Amount::Plain(NumLit::new(1.0)), p: Pct { p, prefix }, op_space: (1, 1), seps: 0, via: 0, order: 0 })
+}
+
+pub fn sum_strategy() -> impl Strategy<Value = SumCase> {
+    let kinds = vec![Phrase::OfPX, Phrase::OfXP, Phrase::OnPX, Phrase::OnXP, Phrase::OffPX, Phrase::OffXP, Phrase::OfWhat];
+    prop_oneof![
+        // phrases of one kind (the same rule has to fire once per occurrence)
+        1 => prop::sample::select(kinds.clone()).prop_flat_map(|ph| prop::collection::vec(sum_term(Just(ph).boxed()), 2..13)),
+        1 => prop::collection::vec(sum_term(prop::sample::select(kinds).boxed()), 2..13),
+    ]
+    .prop_map(|terms| SumCase { terms })
+}
+
 pub fn value_strategy() -> impl Strategy<Value = NumLit> {
     let v = prop_oneof![
         4 => (0u32..=500).prop_map(|v| v as f64),
@@ -300,13 +367,13 @@ pub fn amount_strategy() -> impl Strategy<Value = Amount> {
 }
 
 pub fn case_strategy() -> impl Strategy<Value = Case> {
-    (prop::sample::select(PHRASES.to_vec()), amount_strategy(), value_strategy(), value_strategy(), any::<bool>(), (0u8..=1, 0u8..=1), prop_oneof![3 => Just(0usize), 1 => 1usize..4], prop_oneof![3 => Just(0u8), 2 => 1u8..4]).prop_map(|(phrase, x, bv, p, prefix, op_space, seps, via)| {
+    (prop::sample::select(PHRASES.to_vec()), amount_strategy(), value_strategy(), value_strategy(), any::<bool>(), (0u8..=1, 0u8..=1), prop_oneof![3 => Just(0usize), 1 => 1usize..4], prop_oneof![3 => Just(0u8), 2 => 1u8..4], 0u8..2).prop_map(|(phrase, x, bv, p, prefix, op_space, seps, via, order)| {
         // `A is what % of B`: both plain or both in the same currency (the cases the statement defines)
         let b = match &x {
             Amount::Plain(_) => Amount::Plain(bv),
             Amount::Money(m) => Amount::Money(MoneyLit { amount: bv, suffix: None, ..m.clone() }.normalise()),
         };
-        Case { phrase, x, b, p: Pct { p, prefix }, op_space, seps, via }
+        Case { phrase, x, b, p: Pct { p, prefix }, op_space, seps, via, order }
     })
 }
 
@@ -325,7 +392,7 @@ pub fn table() -> Vec<Case> {
                             1 => Amount::Money(MoneyLit { amount: NumLit::new(v), suffix: None, cur: "usd".into(), spelling: crate::c06::Spelling::SymBefore }),
                             _ => Amount::Money(MoneyLit { amount: NumLit::new(v), suffix: None, cur: "try".into(), spelling: crate::c06::Spelling::CodeAfter(1, 0, 0) }),
                         };
-                        out.push(Case { phrase: ph, x: mk(x), b: mk(80.0), p: Pct { p: NumLit::new(p), prefix }, op_space: (1, 1), seps: 0, via: if kind == 1 { 3 } else { 0 } });
+                        out.push(Case { phrase: ph, x: mk(x), b: mk(80.0), p: Pct { p: NumLit::new(p), prefix }, op_space: (1, 1), seps: 0, via: if kind == 1 { 3 } else { 0 }, order: 0 });
                     }
                 }
             }
@@ -335,15 +402,17 @@ pub fn table() -> Vec<Case> {
 }
 
 pub fn run(ctx: &Ctx) {
-    ctx.rule("generated (X, A, B, p) from integers, fractions, negatives, zero and boundaries (100, 1e-6, 1e9), X/A/B plain or money in any rated currency and spelling, ten phrase shapes, both percent spellings, spaced and unspaced operators, 4 separator conventions; oracle = the seven textbook formulas (x/0 = 0), kind Number / Money(same currency) / Percent, tolerance 1e-9, plus metamorphic equality of the p% and %p spellings, and (two cases in five) exact equality with the same phrase whose X and/or p are held in variables bound on earlier lines; non-trivial = p not in {0,100}, X != 0 and the formulas give pairwise different values for this input (a swapped formula cannot agree by accident)");
+    ctx.rule("generated (X, A, B, p) from integers, fractions, negatives, zero and boundaries (100, 1e-6, 1e9), X/A/B plain or money in any rated currency and spelling, ten phrase shapes, both percent spellings, spaced and unspaced operators, 4 separator conventions; oracle = the seven textbook formulas (x/0 = 0), kind Number / Money(same currency) / Percent, tolerance 1e-9, plus metamorphic equality of the p% and %p spellings, and (two cases in five) exact equality with the same phrase whose X and/or p are held in variables bound on earlier lines; second sub-check: 2-12 number-valued phrases joined by '+' on one line (all of one kind, or mixed) must give the sum of their values; non-trivial = p not in {0,100}, X != 0 and the formulas give pairwise different values for this input (a swapped formula cannot agree by accident)");
     ctx.assume("'6 %' and '% 6' are not percent literals (the lexer requires adjacency) and are not generated");
     ctx.run_table(&PctProp, "boundary-panel", table(), true);
     ctx.run_generated(&PctProp, ctx.tier.pick(150_000, 1_500_000), case_strategy);
+    ctx.run_generated(&PhraseSums, ctx.tier.pick(20_000, 200_000), sum_strategy);
 }
 
 pub fn replay(w: &mut Worker, sub: &str, case: &serde_json::Value) -> Option<Verdict> {
     match sub {
         "percent" => crate::engine::replay_case(&PctProp, w, case),
+        "phrase-sums" => crate::engine::replay_case(&PhraseSums, w, case),
         _ => None,
     }
 }
